@@ -175,7 +175,7 @@ def ident(r):
         return "`" + r.pick(["weird name", "select", "a-b", "x.y", "1col", "ключ", "a'b", "a\\\\b", "tab\\tname", "a``b",
                              "a\\`b", "日本", "x y z", "from", "{a}", "a\"b", "\\x41bc", "nul\\0x", "\\xffbad", "\\xc3\\x28", "a\\'b", "q\\\"q", "bell\\a", "bs\\b", "ff\\f", "vt\\v", "esc\\e", "\\x4A\\x6b", "un\\known",
                              # escaped quotes with a `;` behind them, still inside the name
-                             "a\\`;b", "a``;b", "x;y", "end\\`; DROP", "``;"]) + "`"
+                             "a\\`;b", "a``;b", "x;y", "end\\`; DROP", "``;", "100%", "%d items"]) + "`"
     if x < 4:
         return '"' + r.pick(["quoted", "Order", "my col", "q\"\"q", "a\\\"b", "üñí", "a`b", "group",
                              "a\\\";b", "q\"\";q", "semi;colon", "\"\";"]) + '"'
@@ -1105,7 +1105,9 @@ def in_expr(r, d, subq):
 
 
 def alias(r):
-    return r.pick(["k", "v", "res", "cnt", "x1", "`my alias`", "total", "`it's`", "\"q\"", "`a\\\\b`", "key", "index", "`ключ`"])
+    return r.pick(["k", "v", "res", "cnt", "x1", "`my alias`", "total", "`it's`", "\"q\"", "`a\\\\b`", "key", "index", "`ключ`",
+                   # printf verbs: a name is data wherever it is printed, never part of a format string
+                   "`50%`", "`%s`", "`a%d%v`", "\"100%\""])
 
 
 NESTED_ARRAY = re.compile(r"\[\s*\[|,\s*\[")
